@@ -337,6 +337,14 @@ def run_C07(em, impl, tabs, rng, thorough):
                 if impl.construct(pl, 1)[0] == 0:
                     pays.append(pl)
                     em.count("trailer." + what.replace(" ", "_"))
+    # payloads whose frame has the checksum 000000 (the last three payload bytes are the CRC of what precedes them): a helper that takes a
+    # zero remainder for "already framed" / "nothing to add" would serialise them wrongly
+    for base in [bytes([0xFE, 0x80]) + bytes(rng.getrandbits(8) for _ in range(n_)) for n_ in (2, 5, 17, 300)] + [q for q in pays if 8 <= len(q) <= 1023][:6]:
+        hdrz = b"\xd3" + len(base).to_bytes(2, "big")
+        plz = base[:-3] + gen.crc24q_ref(hdrz + base[:-3]).to_bytes(3, "big")
+        if gen.crc24q_ref(hdrz + plz) == 0 and impl.construct(plz, 1)[0] == 0:
+            pays.append(plz)
+            em.count("checksum_000000")
     for p in pays:
         add_case(em, impl, p, 1, FULL, "serialize/parse of a %d-byte payload" % len(p))
         tag, m = impl.construct(p, 1)
@@ -722,6 +730,17 @@ def run_C14(em, impl, tabs, rng, thorough):
                     RTCMMessage_(payload=badp)
                 except Exception:  # noqa
                     pass
+        # ... and after the message itself was handed to the constructor / to its own initialiser again (conversion idioms such as
+        # RTCMMessage(msg), type(msg)(msg), msg.__init__(payload) -- whatever they do or raise, msg stays frozen and unchanged)
+        if pays.index(p) % 2 == 0:
+            for call in (lambda: RTCMMessage_(m), lambda: RTCMMessage_(payload=m), lambda: RTCMMessage_(m, labelmsm=1), lambda: RTCMMessage_(m, 2),
+                         lambda: type(m).__new__(type(m)), lambda: type(m).__new__(type(m), m)):
+                try:
+                    call()
+                except Exception:  # noqa
+                    pass
+            if snap != snapshot():
+                em.violation("C14: message changed after it was passed to the RTCMMessage constructor", {"payload": p.hex()}, {})
         names = list(m.__dict__) + ["new_attribute", "_private_new", "identity", "payload", "DF002", "_payload", "_immutable"]
         for nme in names:
             for val in (1, "x", None, False):
